@@ -603,23 +603,12 @@ impl Vm {
                 io.output.extend_from_slice(text.as_bytes());
             }
             0x27 => {
-                if !self.minimal {
-                    // The layout of the table of non-minimal mode is decoration; the values it
-                    // shows are not
-                    let mut values: Vec<String> = (0..8).map(|i| format!("0x{:04x}", self.reg[i])).collect();
-                    values.push(format!("0x{:04x}", self.pc));
-                    values.push(format!("{:03b}", self.cc));
-                    io.tables.push((io.output.len(), values));
-                } else {
-                    for i in 0..8 {
-                        io.output
-                            .extend_from_slice(format!("R{} x{:04x}\n", i, self.reg[i]).as_bytes());
-                    }
-                    io.output
-                        .extend_from_slice(format!("PC x{:04x}\n", self.pc).as_bytes());
-                    io.output
-                        .extend_from_slice(format!("CC {:03b}\n", self.cc).as_bytes());
-                }
+                // The layout of the register dump is the tool's business in either output mode
+                // (a table, or `R0 x0000` lines); the values it shows, in this order, are not
+                let mut values: Vec<String> = (0..8).map(|i| format!("{:04x}", self.reg[i])).collect();
+                values.push(format!("{:04x}", self.pc));
+                values.push(format!("{:03b}", self.cc));
+                io.tables.push((io.output.len(), values));
             }
             other => return Some(Stop::UnknownTrap(other)),
         }
